@@ -6,15 +6,29 @@
 use std::collections::BTreeMap;
 use std::io::Write;
 
+/// wall-clock start (ms since the epoch) of the case being run; 0 = idle. Read by the watchdog.
+pub static CASE_START_MS: std::sync::atomic::AtomicU64 = std::sync::atomic::AtomicU64::new(0);
+pub fn now_ms() -> u64 { std::time::SystemTime::now().duration_since(std::time::UNIX_EPOCH).unwrap().as_millis() as u64 }
+
 pub struct Out {
+    pub seq: usize,      // number of cases generated so far (including skipped ones)
+    pub skip: usize,     // cases with seq <= skip are generated but not run (resume after an abort)
     pub next_id: usize,
     pub stats: BTreeMap<String, u64>,
-    pub w: std::io::BufWriter<std::io::Stdout>,
+    pub w: std::io::BufWriter<std::fs::File>,
+    pub cap: crate::capture::Capture,
 }
 impl Out {
-    pub fn new() -> Out { Out{next_id: 0, stats: BTreeMap::new(), w: std::io::BufWriter::with_capacity(1 << 16, std::io::stdout())} }
+    /// fd 1 now belongs to the implementation (captured); records go to the original stdout
+    pub fn new() -> Out {
+        let (cap, orig) = crate::capture::redirect_stdout();
+        Out{seq: 0, skip: 0, next_id: 0, stats: BTreeMap::new(), w: std::io::BufWriter::with_capacity(1 << 16, orig), cap}
+    }
+    /// call once per generated case, before anything else; false = skip it
+    pub fn begin(&mut self) -> bool { self.seq += 1; self.seq > self.skip }
     pub fn case(&mut self, body: &str) -> usize {
-        self.next_id += 1;
+        self.next_id = self.seq;
+        CASE_START_MS.store(now_ms(), std::sync::atomic::Ordering::SeqCst);
         writeln!(self.w, "CASE {} {}", self.next_id, body).unwrap();
         // flushed so that a crash of the implementation leaves the offending case visible
         self.w.flush().unwrap();
@@ -29,7 +43,8 @@ impl Out {
     pub fn stat(&mut self, k: &str, n: u64) { *self.stats.entry(k.to_string()).or_insert(0) += n; }
     pub fn finish(&mut self) {
         for (k, v) in self.stats.iter() { writeln!(self.w, "STAT {} {}", k, v).unwrap(); }
-        writeln!(self.w, "DONE {}", self.next_id).unwrap();
+        CASE_START_MS.store(0, std::sync::atomic::Ordering::SeqCst);
+        writeln!(self.w, "DONE {}", self.seq).unwrap();
         self.w.flush().unwrap();
     }
 }
